@@ -120,7 +120,9 @@ class BlockChain(object):
             )
         old_chain_finder = self.chain_finder
         self.chain_finder = ChainFinder()
-        self._longest_chain_cache = None
+        # keep reporting the same chain: another chain of equal weight must
+        # not take over without any add/remove ops having been emitted
+        self._longest_chain_cache = longest_chain[: len(longest_chain) - index]
 
         def iterate() -> Generator[tuple[Any, Any], None, None]:
             for tree in old_chain_finder.trees_from_bottom.values():
